@@ -22,7 +22,10 @@ pub broadcast axiom fn ax_fin_sub(a: f64, b: f64) ensures fin(a) && fin(b) ==> f
 pub broadcast axiom fn ax_fin_mul(a: f64, b: f64) ensures fin(a) && fin(b) ==> fin(#[trigger] a.mul_spec(b));
 pub broadcast axiom fn ax_fin_div(a: f64, b: f64) ensures fin(a) && fin(b) && rv(b) != 0real ==> fin(#[trigger] a.div_spec(b));
 
-pub broadcast group c17_fin_axioms { ax_fin_not_nan, ax_fin_add, ax_fin_sub, ax_fin_mul, ax_fin_div }
+// the literal 1.0 is a finite double (`n as f64 - 1.0` in Series1::resampled_n, `1.0 + ..` in resampled_x)
+pub broadcast axiom fn ax_fin_lit_one() ensures #[trigger] fin(1.0f64);
+
+pub broadcast group c17_fin_axioms { ax_fin_not_nan, ax_fin_add, ax_fin_sub, ax_fin_mul, ax_fin_div, ax_fin_lit_one }
 
 // R4 target used by C17 (`usize as f64` is always finite; exactness above 2^53 assumed as in vf_to_f64)
 #[verifier::external_body]
@@ -34,6 +37,15 @@ pub fn vf_assert(c: bool) requires c {}
 pub fn vf_unreachable<T>() -> (r: T) requires false { unreachable!() }
 
 pub open spec fn all_fin(s: Seq<f64>) -> bool { forall|i: int| 0 <= i < s.len() ==> fin(#[trigger] s[i]) }
+
+// R12 targets: inline forms of the two validation idioms (`v.iter().all(|x| x.is_finite())`, `v.windows(2).all(|w| w[0] <= w[1])`,
+// `v.iter().any(|x| x.is_nan())`): closures over std iterators, ASSUMED contracts = their documented meaning
+#[verifier::external_body]
+pub fn vf_all_finite(v: &Vec<f64>) -> (r: bool) ensures r == all_fin(v@) { v.iter().all(|x| x.is_finite()) }
+#[verifier::external_body]
+pub fn vf_ascending(v: &Vec<f64>) -> (r: bool) ensures r == sorted(v@) { v.windows(2).all(|w| w[0] <= w[1]) }
+#[verifier::external_body]
+pub fn vf_any_nan(v: &Vec<f64>) -> (r: bool) ensures r == (exists|i: int| 0 <= i < v@.len() && nan(#[trigger] v@[i])) { v.iter().any(|x| x.is_nan()) }
 
 // real min / max
 pub open spec fn rmin(a: real, b: real) -> real { if a <= b { a } else { b } }
